@@ -100,8 +100,8 @@ Definition opt_eqb {A} (e : A -> A -> bool) (a b : option A) : bool :=
   | _, _ => false
   end.
 
-Definition check_tf {L} (leqb : L -> L -> bool) (target : option name) (df : frame L) (o : obs_tf) : bool :=
-  match convert leqb target df with
+Definition check_obs (r : option tensor_frame) (o : obs_tf) : bool :=
+  match r with
   | None => false
   | Some t =>
       forallb (fun st =>
@@ -122,6 +122,26 @@ Definition check_tf {L} (leqb : L -> L -> bool) (target : option name) (df : fra
       && list_eqb (fun a b => str_eqb (fst a) (fst b) && (snd a =? snd b)) (update_emb_dims t) (o_emb_dims o)
   end.
 
+Definition check_tf {L} (leqb : L -> L -> bool) (target : option name) (df : frame L) (o : obs_tf) : bool :=
+  check_obs (convert leqb target df) o.
+
+(* the k-th later call of the same converter object on the frame (k >= 1): the state left by the first call *)
+Definition convert_again {L} (leqb : L -> L -> bool) (target : option name) (df : frame L) (k : nat)
+  : option tensor_frame :=
+  t <- convert leqb target df ;;
+  frames <- converter_calls (encode_col leqb (f_index df)) target (f_cols df) k (tf_names t) ;;
+  last_error frames.
+Definition check_tf_again {L} (leqb : L -> L -> bool) (target : option name) (df : frame L) (k : nat) (o : obs_tf) : bool :=
+  check_obs (convert_again leqb target df k) o.
+
+(* raise / no raise of a conversion *)
+Definition converts {L} (leqb : L -> L -> bool) (target : option name) (df : frame L) : bool :=
+  match convert leqb target df with Some _ => true | None => false end.
+
 Definition task_type_opt_eqb : option task_type -> option task_type -> bool := opt_eqb task_type_eqb.
 Definition check_task (target : rawcol) (obs_task : option task_type) (obs_classes : option nat) : bool :=
   task_type_opt_eqb (task_type_of target) obs_task && opt_eqb Nat.eqb (num_classes target) obs_classes.
+
+(* the witness of Props/C02.v column_perm_success_transfer_refuted, evaluated against /repo by harness/c02.py *)
+Definition keyless_cols : list (name * rawcol) :=
+  [([116%Z], RTok [[]; []]); ([120%Z], RNum [Some (NFin 8); Some (NFin 16)])].
